@@ -97,15 +97,20 @@ package compile
 //@   ensures implies(node_argstatus(statusStatement) == "obsolete", result == schema.Obsolete)
 //@   ensures node_argstatus(statusStatement) == "current" || node_argstatus(statusStatement) == "deprecated" || node_argstatus(statusStatement) == "obsolete"
 
+//@ define statusOf(st) = ite(node_argstatus(st) == "current", schema.Current, ite(node_argstatus(st) == "deprecated", schema.Deprecated, schema.Obsolete))
+//@ define nstat(n) = node_nchildren_of(n, parse.NodeStatus)
+//@ define stat(n, k) = node_child_of(n, parse.NodeStatus, k)
+// A node may carry several status statements (its own, and those of the uses / augment statements that brought it
+// in): its status is the weakest of them and of the inherited one, and none may be stronger than the inherited one.
 //@ func (*Compiler).getStatus
 //@   requires c != nil && node != nil
 //@   modifies *
 //@   preserves c.filter
-//@   ensures implies(node_child_by_type(node, parse.NodeStatus) == nil, result == inheritedStatus)
-//@   ensures implies(node_child_by_type(node, parse.NodeStatus) != nil, result >= inheritedStatus &&
-//@           iff(result == schema.Current, node_argstatus(node_child_by_type(node, parse.NodeStatus)) == "current") &&
-//@           iff(result == schema.Deprecated, node_argstatus(node_child_by_type(node, parse.NodeStatus)) == "deprecated") &&
-//@           iff(result == schema.Obsolete, node_argstatus(node_child_by_type(node, parse.NodeStatus)) == "obsolete"))
+//@   ensures result >= inheritedStatus && forall(k, 0, nstat(node), result >= statusOf(stat(node, k)) && statusOf(stat(node, k)) >= inheritedStatus)
+//@   ensures result == inheritedStatus || exists(k, 0, nstat(node), result == statusOf(stat(node, k)))
+//@   loop 0 invariant c.filter == old(c.filter) && len(looprange) == nstat(node) && forall(i, 0, len(looprange), looprange[i] == stat(node, i) && looprange[i] != nil)
+//@   loop 0 invariant weakest >= inheritedStatus && forall(k, 0, loopidx+1, weakest >= statusOf(stat(node, k)) && statusOf(stat(node, k)) >= inheritedStatus)
+//@   loop 0 invariant weakest == inheritedStatus || exists(k, 0, loopidx+1, weakest == statusOf(stat(node, k)))
 
 //@ func (*Compiler).getConfig
 //@   requires c != nil && node != nil
